@@ -87,7 +87,7 @@ def run_history(tag, cfg, seed, nops=None):
     _join(H, "l")
     _join(H, rng.choice(["v", "l", "raw"]))
     weights = (["join"] * 3 + ["legit"] * 6 + ["down"] * 3 + ["attack"] * 10 + ["login_attack"] * 5 +
-               ["advance"] * 3 + ["reuse"] * 2 + ["down_odd"] * 2)
+               ["advance"] * 3 + ["reuse"] * 2 + ["down_odd"] * 2 + ["raw_shadow"] * 2)
     for _ in range(n):
         if not H.srv.alive() or k.stalled:
             break
@@ -511,6 +511,16 @@ def op_reuse(H):
     if not c:
         return
     old = rng.choice(c)
+    if rng.random() < 0.5 and old.mc.tun_ip:
+        # packets for the old session pile up in the server (it fetches at most the beginning of the first one)
+        for _ in range(rng.randint(2, 4)):
+            f = _frame(H, H.server_tun_ip, old.mc.tun_ip, size=rng.choice([100, 300]))
+            H.offered[f] = {"t": k.now, "dst": old.mc.tun_ip}
+            k.offer_tun("srv", f, H.ident)
+            k.run(k.now + 2000)
+        if rng.random() < 0.5:
+            old.mc.query(old.mc.ping_labels())
+            k.run(k.now + 20000)
     keep = [p for p in H.parties if p is not old and p.stage in ("l", "raw") and _alive(H, p) and rng.random() < 0.5]
     end = k.now + rng.choice([61, 62, 65, 90]) * US
     while k.now < end:
@@ -518,9 +528,12 @@ def op_reuse(H):
         for p in keep:
             p.mc.ping(10000)
             p.last_act = k.now
-    stage = rng.choice(["v", "v", "l"])
+    stage = rng.choice(["v", "l", "l"])
     for _ in range(rng.randint(1, 3)):
         n = _join(H, stage)
+        if n.stage in ("l", "raw"):
+            n.mc.pump(300000, 50000)
+            n.last_act = k.now
         if n.slot == old.slot:
             break
     for _ in range(rng.randint(2, 5)):
@@ -529,5 +542,31 @@ def op_reuse(H):
         _do_cmd(H, old, old.slot, kind)
 
 
-OPS = {"join": op_join, "legit": op_legit, "down": op_down, "down_odd": op_down_odd, "attack": op_attack,
+def op_raw_shadow(H):
+    """Right after a session's genuine raw login a stranger sends a raw login that is too short to carry a response
+    (the bytes of the genuine one are still in the server's receive buffer), then tries to use the session."""
+    rng = H.rng
+    k = H.k
+    c = [p for p in H.parties if p.stage in ("l", "raw") and _alive(H, p) and p.slot is not None]
+    if not c:
+        return
+    p = rng.choice(c)
+    a, src = _attacker(H, p, want_foreign=True)
+    p.mc.raw_login()
+    k.run(k.now + rng.choice([1500, 3000]))
+    if rng.random() < 0.3:
+        p.mc.raw_ping()
+        k.run(k.now + 1500)
+    n = rng.choice([0, 0, 1, 4, 8, 15])
+    a.mc.send_raw_dgram(proto.raw_frame(proto.RAW_LOGIN, p.slot & 15, bytes(rng.getrandbits(8) for _ in range(n))))
+    H.attacks[("rawlogin-short", "authed", "foreign")] = H.attacks.get(("rawlogin-short", "authed", "foreign"), 0) + 1
+    k.run(k.now + 3000)
+    if len(p.mc.raw_in):
+        p.stage = "raw"
+        p.last_act = k.now
+    for kind in ("rawdata", "rawping"):
+        _do_cmd(H, a, p.slot, kind)
+
+
+OPS = {"raw_shadow": op_raw_shadow, "join": op_join, "legit": op_legit, "down": op_down, "down_odd": op_down_odd, "attack": op_attack,
        "login_attack": op_login_attack, "advance": op_advance, "reuse": op_reuse}
